@@ -50,6 +50,11 @@ CLAIMED = {
   ref="DESIGN.md §6 C09",
   note="Trusted: Coq kernel; hand-written model of header.rs tied by differential execution; tables regenerated from /repo each run (DXGI/FourCC/conversion rows through the public API, mask rows by a source scan that re-validates each row against Format::from_header). Builder methods that only set a field (with_array_size, with_alpha_mode, with_pixel_format, ...) are covered by the wf predicate, not individually modelled. Known findings F6a, F6b.",
   tech="Coq proof (record/bit-flag reasoning, lia for little-endian bytes, finite table theorems by vm_compute) + differential execution on byte images"),
+ "C18": dict(
+  text="Coq theorems over symbolic u32 fields: without a file length permissive parsing returns exactly what strict parsing accepts; a header consistent with the supplied file length parses to the strict result; the result of the length-based repair is the header itself, or the header with array_size 0->1, or a header whose layout length equals the file's data length exactly; each known defect (array size 0, 6 for one cube, mip count off by one / dropped / full chain) applied to a consistent header is repaired to a layout of exactly the file's data length, with the side conditions written out (which original mip counts the four guesses reach); the size / flag leniencies (header size 24, pixel-format size 0/24, missing FourCC flag, bad alpha mode, 3D array size) parse to what the clean header parses to. Model tied to src/header.rs + src/layout.rs by differential execution on 14k+ defective / consistent / random headers per run.",
+  ref="DESIGN.md §6 C18",
+  note="Trusted: Coq kernel; hand-written model of Header::from_raw / fix_based_on_file_len tied by differential execution; layouts through the C02 model; tables regenerated from /repo. The defect theorems carry explicit hypotheses (the defective header's own layout must not already match the length; array_size not 0 for the mip repairs).",
+  tech="Coq proof (case analysis over the ordered repair attempts; find/filter lemmas) + differential execution on defect-injected headers"),
 }
 WIP = "check not built yet (work in progress, see DESIGN.md §10 staging); proof applies and is planned"
 
